@@ -15,18 +15,19 @@ def digitsVal : List UInt8 → Nat → Nat
   | [], acc => acc
   | c :: cs, acc => digitsVal cs (acc * 10 + (c.toNat - 48))
 
+/-- optional sign of a ParseInt operand -/
+def splitSign : Bytes → Bool × Bytes
+  | 45 :: r => (true, r)      -- '-'
+  | 43 :: r => (false, r)     -- '+'
+  | r => (false, r)
+
 /-- Decimal int64 literal as `strconv.ParseInt(s, 10, 64)` accepts it: optional sign,
 one or more digits, in range. -/
 def parseDec (s : Bytes) : Option I64 :=
-  let (neg, ds) := match s with
-    | 45 :: r => (true, r)      -- '-'
-    | 43 :: r => (false, r)     -- '+'
-    | r => (false, r)
-  if ds.isEmpty || !ds.all isDigit then none
-  else
-    let n := digitsVal ds 0
-    if neg then (if n ≤ 2 ^ 63 then some (BitVec.ofInt 64 (-(n : Int))) else none)
-    else (if n < 2 ^ 63 then some (BitVec.ofNat 64 n) else none)
+  if (splitSign s).2.isEmpty || !(splitSign s).2.all isDigit then none
+  else if (splitSign s).1 then
+    (if digitsVal (splitSign s).2 0 ≤ 2 ^ 63 then some (BitVec.ofInt 64 (-(digitsVal (splitSign s).2 0 : Int))) else none)
+  else (if digitsVal (splitSign s).2 0 < 2 ^ 63 then some (BitVec.ofNat 64 (digitsVal (splitSign s).2 0)) else none)
 
 def hasPrefix (p s : Bytes) : Bool := p.isPrefixOf s
 
